@@ -112,7 +112,9 @@ impl ReProgram {
                 let mut fp = fixed_position;
                 let mut mp = min_position;
                 for o in &sequence.operations {
-                    if matches!(o, Operation::Bol(_)) {
+                    if matches!(o, Operation::Bol(_)) && !self.flags.is_multi_line() {
+                        // without flag m, '^' pins the match to the start of
+                        // the input; with it, any line start is possible
                         fp = Some(0);
                     }
                     self.add_precondition(o.clone(), fp, mp);
